@@ -107,6 +107,7 @@ polyseed_status polyseed_phrase_decode(const polyseed_phrase phrase, uint_fast16
 polyseed_status polyseed_phrase_decode_explicit(const polyseed_phrase phrase, const polyseed_lang* lang, uint_fast16_t idx_out[POLYSEED_NUM_WORDS]) { __CPROVER_assert(0, "unexpected call"); return 0; }
 
 void harness(void) {
+    GHOST_INDICES_ARBITRARY();
     deps_install();
     __CPROVER_havoc_object(pool);        /* arbitrary contents */
     for (int p = 0; p < NPOOL + 1; ++p) {
